@@ -93,11 +93,22 @@ def last_attr(call):
     return None
 
 
+_U_PREFIX = None
+
+
 def src(node):
+    """normalised source text of a node (ast.unparse; the py2-compat u'' string prefix is dropped)"""
+    global _U_PREFIX
     try:
-        return ast.unparse(node)
+        t = ast.unparse(node)
     except Exception:
         return "<%s>" % type(node).__name__
+    if "u'" in t or 'u"' in t:
+        if _U_PREFIX is None:
+            import re
+            _U_PREFIX = re.compile(r"(?<![A-Za-z0-9_])u(?=['\"])")
+        t = _U_PREFIX.sub("", t)
+    return t
 
 
 def const_str(node):
